@@ -355,6 +355,8 @@ pub fn encode_vector<B: KeyBuffer>(dimensions: &[f32], buf: &mut B) {
     buf.push(type_prefix::VECTOR);
     buf.extend_from_slice(&(dimensions.len() as u32).to_be_bytes());
     for &dim in dimensions {
+        // -0.0 is not < 0.0: without this it took the positive branch and decoded as NaN
+        let dim = if dim == 0.0 { 0.0 } else { dim };
         let bits = dim.to_bits();
         let encoded = if dim < 0.0 {
             !bits
@@ -416,6 +418,8 @@ pub fn encode_json<B: KeyBuffer>(json: &JsonValue, buf: &mut B) {
         JsonValue::Bool(true) => buf.push(type_prefix::JSON_TRUE),
         JsonValue::Number(n) => {
             buf.push(type_prefix::JSON_NUMBER);
+            // -0.0 is not < 0.0: without this it took the positive branch and decoded as NaN
+            let n = &(if *n == 0.0 { 0.0 } else { *n });
             if *n < 0.0 {
                 buf.extend_from_slice(&(!n.to_bits()).to_be_bytes());
             } else {
